@@ -157,10 +157,10 @@ def m2gJde (h m d : Int) : Option ℚ :=
 
 theorem m2gJde_eq (h m d : Int) (hv : Islamic.Valid h m d) :
     m2gJde h m d = some ((Islamic.jdn h m d : ℚ) - 1 / 2) := by
-  obtain ⟨y', m', d', D, e1, e2, _, e4⟩ := m2gI_correct h m d hv
+  obtain ⟨y', m', d', D, e1, e2, e3, e4⟩ := m2gI_correct h m d hv
   unfold m2gJde
   rw [moslem2gregorian_int, e1]
   dsimp only
-  rw [e2, show ((d' : Int) : ℚ) = ofInt d' from rfl, compute_jde_int, e4]
+  rw [e2, show ((d' : Int) : ℚ) = ofInt d' from rfl, compute_jde_int _ _ _ e3, e4]
 
 end Pymeeus.Refine
